@@ -177,7 +177,9 @@ func (c *MapCodec) Read(data []byte, ptr unsafe.Pointer, wt plenccore.WireType) 
 	// re-use the space on each iteration as the data is copied into the map
 	// We also save some memory & time if we cache them in some pools
 	k := c.kPool.Get().(unsafe.Pointer)
+	verifhook.YieldP("kpool.get", k)
 	defer c.kPool.Put(k)
+	defer verifhook.YieldP("kpool.put", k)
 	offset := int(n)
 	for count > 0 {
 		// Each entry starts with a length
